@@ -13,7 +13,17 @@ Correspondence between the real Perceval code and the Lean model (`Model/C11.lea
              checked against the specification step: deterministic branches exactly, the non-successive
              PERM branch by recovering the heuristic's choice from the output and testing `ValidChoice`;
              final matrix against the exact product of the original leaves; both `display` modes.
-* flatten  : `Processor.flatten(max_depth)`, `non_unitary_circuit()`, `linear_circuit(flatten=True)`, `copy()`.
+* flatten  : `Processor.flatten(max_depth)`, `non_unitary_circuit()` (loss channels and time delays: block boundaries,
+             block matrices, the block put back on its range against the model's product of the run; `_has_td`
+             early return), `linear_circuit()` refused exactly with a non-unitary component,
+             `linear_circuit(flatten=True)`, `copy()`.
+* copy     : `Circuit.copy()` / `Processor.copy()` / `Experiment.copy()` (also `copy(subs=...)`) on nested circuits
+             whose leaf and sub-circuit OBJECTS are held several times: the real object graph is walked and sent to
+             the model (`Model/C11Deep.lean`, driver op `deepcopy`); compared: the identities of the copy's objects
+             (one new object per occurrence), nesting and modes, the matrix, and the matrices of original and copy
+             after an in-place `inverse(h=True)` of a leaf object of the copy resp. of the original.
+* heuristic: every non-successive PERM step of `simplify` has to be THE result of the exact model of
+             `_generate_compatible_perm` / `_update_perm` / `_search_empty_space` (`Model/C11Heur.lean`).
 
 * wide     : every family also draws wide instances (simplify / decompose_perms on 9..40 modes with permutations as
              wide as the circuit and the in-between components clustered around a focus mode; inverse / flatten on
@@ -1457,8 +1467,9 @@ def handle_flatten(chk, case):
 # ------------------------------------------------------------------------------------------------
 # `AProcessor.copy(subs=...)` drops `subs` (candidate repair: fixes/C11-processor-copy-subs.diff).  Symbolic
 # parameters are outside the quantifier of the property ("arbitrary fixed angles"), so the check does not report
-# it; once the repair is in /repo switch this on and Processor.copy(subs=...) is probed like Experiment.copy.
-PROBE_PROCESSOR_COPY_SUBS = False
+# it; with VERIF_C11_PROBE_PROCESSOR_COPY_SUBS=1 (for use once the repair is in /repo) Processor.copy(subs=...) is
+# probed like Experiment.copy (signature `copy-matrix`: the copy has no numeric matrix).
+PROBE_PROCESSOR_COPY_SUBS = os.environ.get("VERIF_C11_PROBE_PROCESSOR_COPY_SUBS") == "1"
 
 MUTABLE_CLASSES = ("BS", "PS", "PERM", "Unitary")
 
@@ -1814,14 +1825,17 @@ def load_corpus():
 
 
 def run(chk: core.Check):
-    chk.rule = ("four families: (inverse) construction programs with nested sub-circuits, shared component objects, "
+    chk.rule = ("five families: (inverse) construction programs with nested sub-circuits, shared component objects, "
                 "three BS conventions x five independent rational-exact angles, all (v, h) flag combinations; (perms) "
                 "exhaustive small permutations for the helpers and the bubble sort; (simplify) random circuits of PS "
                 "(numeric incl. exact opposites and zero, variable), PERM, BS, Unitary, Barrier, nested slices, both display "
                 "modes, list and Circuit inputs, every intermediate state checked; (flatten) processors with nested circuits "
-                "at non-zero offsets, loss channels, max_depth. distinct = distinct generated programs; non-trivial = "
+                "at non-zero offsets, loss channels, time delays, max_depth; (copy) circuits / processors / experiments with "
+                "nested sub-circuits whose leaf and sub-circuit objects are held several times, copy() / copy(subs={}) / "
+                "copy(subs={symbol: value}) with phase shifters on symbols, in-place inverse of a leaf of the copy and of "
+                "the original afterwards. distinct = distinct generated programs; non-trivial = "
                 "inverse: shared object / nested offset / >= 3 leaves; simplify: >= 2 PERMs; flatten: two nesting levels at a "
-                "non-zero offset; perms: every case. Every family also draws wide instances (9..40 modes for simplify / "
+                "non-zero offset; copy: >= 3 nodes; perms: every case. Every family also draws wide instances (9..40 modes for simplify / "
                 "decompose_perms with permutations as wide as the circuit and the in-between components clustered around "
                 "a focus mode, half of the time one of the size boundaries 8/16/32; 9..20 modes for inverse and flatten; "
                 "random permutations of up to 40 modes for the helpers and the bubble sort)")
@@ -1835,7 +1849,12 @@ def run(chk: core.Check):
         "of the leaves' own matrices computed by the harness; it is cross-checked against the Lean model on every "
         "case of at most 12 modes",
         "symbolic (undefined) parameters, WP/PR (no inverse), polarised components and leaf-first `//` on a reused leaf "
-        "(shallow copies sharing Parameter objects) are not generated",
+        "(shallow copies sharing Parameter objects) are not generated - except phase shifters on a symbol in the copy "
+        "family, where copy(subs={symbol: value}) is compared with the same program written with the numbers",
+        "copy: the fields Experiment.copy() / Processor.copy() share with the original (ports, heralds, detectors, "
+        "post-selection, noise, input state, backend) are not compared; Processor.copy(subs=...) drops `subs` on /repo "
+        "(fixes/C11-processor-copy-subs.diff, symbolic parameters are outside the property) and is probed only with "
+        "VERIF_C11_PROBE_PROCESSOR_COPY_SUBS=1",
     ]
     chk.required_branches = [
         "inv-v", "inv-h", "inv-vh", "inv-three-calls", "inv-shared-object", "inv-nested-offset", "inv-lone-component",
